@@ -977,9 +977,11 @@ impl CapacityTwin {
                 for o2 in &conts {
                     cases += 1;
                     let mut a = q.clone();
-                    let mut b = t.clone();
+                    // NOT a clone of `t`: cloning re-sizes the tables and would undo the capacity call
+                    let mut b = q.clone();
                     let (mut ma, mut mb) = (m.clone(), m.clone());
                     let (mut ua, mut ub) = (false, false);
+                    step(&mut b, cap, &mut mb, &mut ub).map_err(|e| format!("{cap:?}: {e}"))?;
                     for o in [o1, o2] {
                         let ra = step(&mut a, o, &mut ma, &mut ua)?;
                         let rb = step(&mut b, o, &mut mb, &mut ub).map_err(|e| format!("after {cap:?}, then {o1:?},{o2:?}: {e}"))?;
